@@ -19,10 +19,7 @@ Definition mismatch (c : case) : bool :=
 
 (* The property on the observed outputs only:
    (1) now - 5 s <= out <= now for every call;
-   (2) steady stretch: for consecutive calls i, i+1 where neither output equals its `now` (no resynchronisation
-       can have happened at i+1 then... see below) the outputs differ by the frame timestamp difference up to
-       the truncation of the scaling: |rate * (o2 - o1) - (p2 - p1) * 10^9| < 2 * rate, when p2 > p1 and the
-       differences are small enough not to wrap. *)
+   (2) steady stretch: see `steady` below. *)
 Fixpoint windows (calls : list (Z * Z)) (outs : list Z) : bool :=
   match calls, outs with
   | [], [] => true
@@ -30,10 +27,16 @@ Fixpoint windows (calls : list (Z * Z)) (outs : list Z) : bool :=
   | _, _ => false
   end.
 
+(* (2) steady stretch, judged without the model: for consecutive calls with p1 < p2, the candidate o1 + (p2-p1)*10^9/rate
+   (exact, rational) is what the property prescribes for o2 whenever it lies inside the window of the second call
+   with a margin of 2 ns (the truncation of the two scalings): a resynchronisation is legitimate only when the
+   candidate leaves the window. *)
 Fixpoint steady (rate : Z) (calls : list (Z * Z)) (outs : list Z) : bool :=
   match calls, outs with
   | (p1, n1) :: (((p2, n2) :: _) as c'), o1 :: ((o2 :: _) as o') =>
-      (if negb (o2 =? n2) && (p1 <? p2) && (p2 - p1 <? 4611686018427387904 / 1000000000)
+      (let cand := o1 * rate + (p2 - p1) * 1000000000 in
+       if (p1 <? p2) && (p2 - p1 <? 4611686018427387904)
+          && ((n2 - 5000000000 + 2) * rate <=? cand) && (cand <=? (n2 - 2) * rate)
        then Z.abs (rate * (o2 - o1) - (p2 - p1) * 1000000000) <? 2 * rate else true)
       && steady rate c' o'
   | _, _ => true
